@@ -37,7 +37,7 @@ TypeOf ==
       [] Ty = "OptColor"  -> Adt("Option", <<Adt("Color", <<>>)>>)
       [] Ty = "Shape"     -> Adt("Shape", <<>>)
       [] Ty = "Point"     -> Adt("Point", <<>>)
-      [] Ty = "ListInt"   -> [t |-> "List", e |-> TInt]
+      [] Ty \in {"ListInt", "ListIntSmall"} -> [t |-> "List", e |-> TInt]
       [] Ty = "TupIntBool" -> [t |-> "Tuple", es |-> <<TInt, TBool>>]
       [] Ty = "TupColorOpt" -> [t |-> "Tuple", es |-> <<Adt("Color", <<>>), Adt("Option", <<TInt>>)>>]
       [] Ty = "PairIntBool" -> [t |-> "Pair", a |-> TInt, b |-> TBool]
@@ -114,7 +114,12 @@ Bound(p, val, ty) ==      \* as Data, so that the compiled code can hand them ba
 ASSUME PrintT(<<"UNIVERSE", ToJson([ty |-> Ty, vals |-> [j \in 1..Len(Universe) |-> ToData(Types, TypeOf, Universe[j])]])>>)
 
 VARIABLES cl      \* the clause list: a sequence of patterns
-Init == \E n \in 1..K : cl \in SeqsN(Pats(TypeOf, 2), n)
+\* "ListIntSmall": the same lists with element patterns restricted to `_` and `1`, so that 3 clauses stay enumerable
+SmallListPats ==
+    {Discard, PVar, [p |-> "list", ps |-> <<>>, tail |-> "none"]}
+    \cup UNION {{[p |-> "list", ps |-> ps, tail |-> tl] : ps \in SeqsN({Discard, [p |-> "int", n |-> 1]}, n), tl \in {"none", "discard"}} : n \in 1..2}
+    \cup {[p |-> "list", ps |-> <<PVar>>, tail |-> tl] : tl \in {"none", "discard"}}
+Init == \E n \in 1..K : cl \in SeqsN(IF Ty = "ListIntSmall" THEN SmallListPats ELSE Pats(TypeOf, 2), n)
 Next == UNCHANGED cl
 Spec == Init /\ [][Next]_cl
 
